@@ -8,6 +8,9 @@ BASE_NOTE = "Trusted base: Go 1.26.8 toolchain (testing/synctest for the virtual
 
 # property -> (technique, level text, design ref, extra note)
 CLAIMED = {
+ "C06": ("fault-tape x tick-schedule search in a synctest bubble with a scripted wire-level peer; history invariants over the timestamped wire log",
+         "Generated loss patterns over transmissions and replies, peer reactions, caller deadlines/cancellations and housekeeping tick schedules around k x ACK_TIMEOUT (40k quick / 600k thorough) against a real client connection; the virtual clock makes 'k-th copy not before t0 + k x ACK_TIMEOUT' and 'no copy after the ACK was delivered' exact statements over the wire log.",
+         "DESIGN.md 3/C06", ""),
  "C05": ("model-based history search in a synctest bubble: scripted wire-level peer, reference de-duplication table over handler log and wire log",
          "Generated duplication/re-ordering histories (20k quick / 400k thorough) against a real server-side connection on an in-memory datagram link with a virtual clock, so the 247 s lifetime boundary is hit exactly (first arrival + 247 s - eps, last reply + 247 s + eps); both the default processing loop and a goroutine per message; oracle is a reference de-duplication table evaluated over the complete history. Bounded search; goroutine interleavings are the runtime's.",
          "DESIGN.md 3/C05", ""),
